@@ -145,6 +145,8 @@ struct Pool {
     std::vector<std::thread> th;
     std::atomic<uint64_t> word{0};   // (round << 8) | active workers
     uint64_t round_no = 0;
+    std::atomic<uint32_t> gen{0}; std::atomic<int> sleepers{0};
+    void wake() { gen.fetch_add(1); if (sleepers.load() > 0) syscall(SYS_futex, (uint32_t*)&gen, 1 /*FUTEX_WAKE*/, 1 << 30, nullptr, nullptr, 0); }
     std::atomic<int> arrived{0}, finished{0};
     std::atomic<bool> quit{false};
     int n_active = 0;
@@ -158,7 +160,15 @@ struct Pool {
                 int sp = 0; uint64_t w;
                 // round number and number of active workers travel in one word: a late, inactive worker can never pair an old
                 // round with a newer round's thread count
-                while (((w = word.load(std::memory_order_acquire)) >> 8) == seen) { if (quit.load(std::memory_order_relaxed)) return; if (++sp < 2000) _mm_pause(); else if (sp < 6000) sched_yield(); else sleep_us(50); }
+                while (((w = word.load()) >> 8) == seen) {
+                    if (quit.load(std::memory_order_relaxed)) return;
+                    if (++sp < 2000) _mm_pause(); else if (sp < 3000) sched_yield();
+                    else {      // really block (an idle poller would keep the watchdog from ever seeing quiescence or a spin-stall)
+                        uint32_t g = gen.load(); sleepers.fetch_add(1);
+                        if ((word.load() >> 8) == seen && !quit.load()) syscall(SYS_futex, (uint32_t*)&gen, 0 /*FUTEX_WAIT*/, g, nullptr, nullptr, 0);
+                        sleepers.fetch_sub(1);
+                    }
+                }
                 seen = w >> 8;
                 int na = (int)(w & 0xff);
                 if (t < na) {
@@ -170,10 +180,10 @@ struct Pool {
             }
         });
     }
-    void start(int n, std::function<void(int)> f) { job = std::move(f); n_active = n; arrived.store(0); finished.store(0); word.store((++round_no << 8) | (uint64_t)n, std::memory_order_release); }
+    void start(int n, std::function<void(int)> f) { job = std::move(f); n_active = n; arrived.store(0); finished.store(0); word.store((++round_no << 8) | (uint64_t)n); wake(); }
     bool done() const { return finished.load(std::memory_order_acquire) >= n_active; }
     void wait() { int s = 0; while (!done()) relax(s); }
-    ~Pool() { quit.store(true); for (auto& t : th) t.join(); }
+    ~Pool() { quit.store(true); wake(); for (auto& t : th) t.join(); }
     bool asleep(int t) const { return hts[t] && hts[t]->sleeping_on.load(std::memory_order_relaxed) != nullptr; }
 };
 
